@@ -386,6 +386,8 @@ def function_apply(E, cls, *args, **kwargs):
     ctx.fields["needs_input_grad"] = tuple(False for _ in args)
     ctx.fields["save_for_backward"] = Builtin("save_for_backward", lambda E2, *ts: ctx.fields.__setitem__("saved_tensors", tuple(ts)))
     E.log.append(("autograd.apply", cls.name))
+    # recorded for the callers' contracts: was the Function recorded in the graph (grad mode on at the call)?
+    E.ps.setdefault("apply_log", []).append((cls.name, E.ps.get("grad_enabled", True), tuple(args)))
     return E.call(fwd, [ctx] + list(args), kwargs)
 
 
